@@ -132,6 +132,7 @@ def dispatch : List String → String
   | ["schema_tables", h] => runConfig h
   | ["schema_grpc", _] => "~same"
   | ["schema_req", _] => "~one outcome for every loading route"
+  | ["schema_ext", _] => "~extension fields of a dynamically loaded schema survive in both directions"
   | ["schema_rest_grpc", _] => "~a response that is valid for a REST client"
   | ["config", h] => runConfig h
   | ["config_err", h] => runConfigErr h
